@@ -4,7 +4,7 @@ use crate::{
     binreflect::reflect_to_bin,
     lib_priv::{SkinnedMeshSyncMapper, SyncTrackerRes},
     networking::assets::SyncAssetTransfer,
-    proto::Message,
+    proto::{Message, SyncAssetType},
     SyncEntity,
 };
 use bevy::{
@@ -182,6 +182,7 @@ fn check_materials(world: &World, result: &mut Vec<Message>) -> Result<(), Box<d
 
 fn check_audios(world: &mut World, result: &mut Vec<Message>) -> Result<(), Box<dyn Error>> {
     let track = world.resource_mut::<SyncTrackerRes>();
+    let enabled = track.sync_audios;
     let mut audios_to_add = Vec::<(Uuid, AudioSource)>::new();
     if track.sync_audios {
         let audios = world.resource::<Assets<AudioSource>>();
@@ -193,15 +194,27 @@ fn check_audios(world: &mut World, result: &mut Vec<Message>) -> Result<(), Box<
         }
     }
     let mut sync_assets = world.resource_mut::<SyncAssetTransfer>();
+    // an asset this peer has been told about and is still downloading: hand on the url it was given,
+    // not the copy held so far (the finished download is applied silently, nobody would be told)
+    let pending = sync_assets.pending_downloads(SyncAssetType::Audio);
     for (id, audio) in audios_to_add.iter() {
+        if pending.iter().any(|(pending_id, _)| pending_id == id) {
+            continue;
+        }
         let url = sync_assets.serve_audio(id, audio);
         result.push(Message::AudioUpdated { id: *id, url });
+    }
+    if enabled {
+        for (id, url) in pending {
+            result.push(Message::AudioUpdated { id, url });
+        }
     }
     Ok(())
 }
 
 fn check_meshes(world: &mut World, result: &mut Vec<Message>) -> Result<(), Box<dyn Error>> {
     let track = world.resource_mut::<SyncTrackerRes>();
+    let enabled = track.sync_meshes;
     let mut meshes_to_add = Vec::<(Uuid, Mesh)>::new();
     if track.sync_meshes {
         let meshes = world.resource::<Assets<Mesh>>();
@@ -213,15 +226,27 @@ fn check_meshes(world: &mut World, result: &mut Vec<Message>) -> Result<(), Box<
         }
     }
     let mut sync_assets = world.resource_mut::<SyncAssetTransfer>();
+    // an asset this peer has been told about and is still downloading: hand on the url it was given,
+    // not the copy held so far (the finished download is applied silently, nobody would be told)
+    let pending = sync_assets.pending_downloads(SyncAssetType::Mesh);
     for (id, mesh) in meshes_to_add.iter() {
+        if pending.iter().any(|(pending_id, _)| pending_id == id) {
+            continue;
+        }
         let url = sync_assets.serve_mesh(id, mesh);
         result.push(Message::MeshUpdated { id: *id, url });
+    }
+    if enabled {
+        for (id, url) in pending {
+            result.push(Message::MeshUpdated { id, url });
+        }
     }
     Ok(())
 }
 
 fn check_images(world: &mut World, result: &mut Vec<Message>) -> Result<(), Box<dyn Error>> {
     let track = world.resource_mut::<SyncTrackerRes>();
+    let enabled = track.sync_materials;
     let mut images_to_add = Vec::<(Uuid, Image)>::new();
     if track.sync_materials {
         let images = world.resource::<Assets<Image>>();
@@ -233,9 +258,20 @@ fn check_images(world: &mut World, result: &mut Vec<Message>) -> Result<(), Box<
         }
     }
     let mut sync_assets = world.resource_mut::<SyncAssetTransfer>();
+    // an asset this peer has been told about and is still downloading: hand on the url it was given,
+    // not the copy held so far (the finished download is applied silently, nobody would be told)
+    let pending = sync_assets.pending_downloads(SyncAssetType::Image);
     for (id, image) in images_to_add.iter() {
+        if pending.iter().any(|(pending_id, _)| pending_id == id) {
+            continue;
+        }
         let url = sync_assets.serve_image(id, image);
         result.push(Message::ImageUpdated { id: *id, url });
+    }
+    if enabled {
+        for (id, url) in pending {
+            result.push(Message::ImageUpdated { id, url });
+        }
     }
     Ok(())
 }
